@@ -27,6 +27,7 @@ import (
 	"syscall"
 	"time"
 	"unicode/utf8"
+	"flag"
 )
 
 // ---------------------------------------------------------------- config
@@ -236,6 +237,7 @@ func Run(c Config, main func()) (res Result) {
 	// state is (re)initialised, as it would be at process start
 	resetTasks()
 	taskPanic = ""
+	resetFlags()
 	oldLocal := time.Local
 	time.Local = time.FixedZone(fmt.Sprintf("SIM%+d", c.TZOffsetMin), c.TZOffsetMin*60)
 	defer func() { time.Local = oldLocal }()
@@ -703,3 +705,92 @@ func Environ() []string {
 }
 
 var ErrUnsupported = errors.New("verifsimrt: unsupported")
+
+// ---------------------------------------------------------------- package maps (iteration order is the schedule's)
+
+// MapKeys / MapValues / MapAll stand in for maps.Keys / maps.Values / maps.All (which walk
+// the map inside the standard library, where the range rewrite cannot reach). They return
+// plain iterator functions, assignable to iter.Seq / iter.Seq2.
+func MapKeys[K comparable, V any](site string, m map[K]V) func(yield func(K) bool) {
+	return func(yield func(K) bool) {
+		for _, p := range Pairs(site, m) {
+			if !yield(p.K) {
+				return
+			}
+		}
+	}
+}
+func MapValues[K comparable, V any](site string, m map[K]V) func(yield func(V) bool) {
+	return func(yield func(V) bool) {
+		for _, p := range Pairs(site, m) {
+			if !yield(p.V) {
+				return
+			}
+		}
+	}
+}
+func MapAll[K comparable, V any](site string, m map[K]V) func(yield func(K, V) bool) {
+	return func(yield func(K, V) bool) {
+		for _, p := range Pairs(site, m) {
+			if !yield(p.K, p.V) {
+				return
+			}
+		}
+	}
+}
+
+// MapKeysSlice / MapValuesSlice stand in for golang.org/x/exp/maps.Keys / Values.
+func MapKeysSlice[K comparable, V any](site string, m map[K]V) []K {
+	out := make([]K, 0, len(m))
+	for _, p := range Pairs(site, m) {
+		out = append(out, p.K)
+	}
+	return out
+}
+func MapValuesSlice[K comparable, V any](site string, m map[K]V) []V {
+	out := make([]V, 0, len(m))
+	for _, p := range Pairs(site, m) {
+		out = append(out, p.V)
+	}
+	return out
+}
+
+// ---------------------------------------------------------------- package flag
+
+// FlagParse stands in for flag.Parse(): the default flag set parses the simulated command
+// line, writes to the simulated stderr and ends the program through the simulated exit
+// (status 0 for -h / -help, 2 for a bad flag), as flag.ExitOnError does.
+func FlagParse() {
+	fs := flag.CommandLine
+	name := "borno"
+	if len(Args) > 0 {
+		name = Args[0]
+	}
+	fs.Init(name, flag.ContinueOnError)
+	fs.SetOutput(Stderr)
+	var rest []string
+	if len(Args) > 1 {
+		rest = Args[1:]
+	}
+	if err := fs.Parse(rest); err != nil {
+		if err == flag.ErrHelp {
+			Exit(0)
+		}
+		Exit(2)
+	}
+}
+
+// resetFlags gives every run a fresh default flag set (flags are registered by package
+// initialisers, which the per-run reset runs again).
+func resetFlags() {
+	name := "borno"
+	if len(cfg.Args) > 0 {
+		name = cfg.Args[0]
+	}
+	flag.CommandLine = flag.NewFlagSet(name, flag.ContinueOnError)
+	flag.CommandLine.SetOutput(Stderr)
+	flag.Usage = func() {
+		fmt.Fprintf(Stderr, "Usage of %s:\n", name)
+		flag.PrintDefaults()
+	}
+}
